@@ -110,7 +110,7 @@ def menu(world, build):
     M.append(("firstbase", 0, b0 - 12, "30M", with_sub(b0 - 12, 30, [(b0, COMP[G[b0]])])))
     M.append(("lastbase", 0, b1 - 17, "30M", with_sub(b1 - 17, 30, [(b1, COMP[G[b1]])])))
     if world.spec.pseudo:
-        p0 = worlds.OFFS[build][1] - 1 + 140
+        p0 = world.offs(build)[1] - 1 + 140
         M.append(("pseudo_del", 0, p0, "14M2D16M", ref(p0, 14) + ref(p0 + 16, 16)))
         M.append(("pseudo_del2", 0, p0 + 4, "12M1D18M", ref(p0 + 4, 12) + ref(p0 + 17, 18)))
         M.append(("pseudo_mis", 0, p0 + 2, "30M", with_sub(p0 + 2, 30, [(p0 + 14, COMP[G[p0 + 14]])])))
